@@ -36,11 +36,11 @@ def main():
         traceback.print_exc()
         if in_impl:
             # the implementation raised where the harness expects it to work on valid input: the correspondence
-            # (model says a value, code raises) is broken; no failing input was isolated by an oracle
+            # (model says a value, code raises) is broken; the property's population search then looks for a failing input
             f = in_impl[-1]
             ctx.proof_breaks.append(f'implementation raised {type(e).__name__}: {e} at {f.filename}:{f.lineno} '
                                     f'({f.name}) while the harness observed it on a generated valid input')
-            return ctx.finish(getattr(mod, 'LEVEL', 'proof'), None)
+            return ctx.finish(getattr(mod, 'LEVEL', 'proof'), getattr(mod, 'population_search', None))
         in_props = [f for f in tb if '/harness/props/' in f.filename or '/harness/structural' in f.filename
                     or '/harness/pipes' in f.filename]
         if ctx.observing and in_props and not isinstance(e, (MemoryError, OSError, KeyboardInterrupt)):
